@@ -296,7 +296,7 @@ def main(argv=None):
                 if len(chain) == 1:
                     pn = [a.arg for a in chain[-1].args.args]
                     rep = native.replay(q, j.get('contract_module'), contract_class_name(w, q),
-                                        f['label'].rsplit(':', 1)[1], f['model'], pn)
+                                        f['label'].rsplit(':', 1)[1].split('#')[0], f['model'], pn)
             except Exception as e:
                 rep = {'confirmed': None, 'detail': 'replay crashed: %s' % e}
         confirmed = bool(rep and rep.get('confirmed'))
